@@ -149,6 +149,7 @@ def run_table(ctx, binary, prop, jobs, results):
     rows = [r for r in rows if r["t"] + "." + r["op"] not in skipped]
     summ["rows"] = len(rows)
     summ["entries"] -= len(ctl["v"])
+    summ["error_entries"] -= len([v for v in ctl["v"] if v >= 1000])
     summ["direct"] -= len(ctl["v"])
     summ["script_evals"] -= 2 * len(ctl["v"])
     for m in mism:
